@@ -307,9 +307,40 @@ def gen_case(rng):
         choices += [('reissue-1', t0 + rt - 1), ('reissue+0', t0 + rt), ('reissue+1', t0 + rt + 1)] * 3
     clock, now = rng.choice(choices)
     now = max(0, now)
-    case = {'cfg': cfg, 'req': {'cookie': cookie, 'ip': ip, 'host': host, 'now': now, 'half': rng.random() < 0.25},
-            'ops': gen_ops(rng),
-            'origin': origin, 'other_u': other_u, 'kind': kind, 'clock': clock, 'seam': rng.random() < 0.3,
+    seam = rng.random() < 0.3
+    second = None
+    ops = gen_ops(rng)
+    if rng.random() < 0.22:
+        # a second helper consulted for the same request: differs in secret / algorithm / address binding / cookie name /
+        # timeout (sometimes not at all); its cookie is the same value (copied ticket), nothing, or another issued ticket
+        c2 = dict(cfg)
+        for f in rng.sample(['secret', 'hashalg', 'include_ip', 'cookie_name', 'timeout', 'none'], rng.choice([1, 1, 2])):
+            if f == 'secret':
+                c2['secret'] = rng.choice([x for x in SECRETS if x != cfg['secret']])
+            elif f == 'hashalg':
+                c2['hashalg'] = rng.choice([a for a in ALGS if a != cfg['hashalg']])
+            elif f == 'include_ip':
+                c2['include_ip'] = not cfg['include_ip']
+            elif f == 'cookie_name':
+                c2['cookie_name'] = 'tk' if cfg['cookie_name'] != 'tk' else 'auth_tkt'
+            elif f == 'timeout':
+                c2['timeout'] = rng.choice([None, 1, 1200])
+        ck2 = rng.choice([cookie, cookie, None, cookie[:-1] if cookie else None])
+        second = {'cfg': c2, 'cookie': ck2}
+        # interleave: some operations go to the second helper (codes 3 4 5), typically after the first one answered
+        if not ops:
+            ops = [[0]]
+        ops = ops[:4]
+        extra = [[3]] if rng.random() < 0.7 else [[rng.choice([3, 5])]]
+        if rng.random() < 0.3:
+            extra.append([4, gen_uval(rng), None, gen_tokens(rng, bad_ok=False)])
+        for e in extra:
+            ops.insert(rng.randint(1, len(ops)) if rng.random() < 0.8 else 0, e)
+        ops = ops[:6]
+    case = {'cfg': cfg, 'req': {'cookie': cookie, 'ip': ip, 'host': host, 'now': now, 'half': rng.random() < 0.25,
+                                'tick': (not seam) and rng.random() < 0.25},
+            'second': second, 'ops': ops,
+            'origin': origin, 'other_u': other_u, 'kind': kind, 'clock': clock, 'seam': seam,
             'via_policy': rng.random() < 0.3}
     return case
 
@@ -334,12 +365,28 @@ def valid(case):
                 return False
         if cfg['domain'] not in (None, '', 'example.org') or cfg['samesite'] not in ('Lax', 'Strict', None):
             return False
+        sec = case.get('second')
         for op in case['ops']:
-            if op[0] not in (0, 1, 2) or (op[0] == 1 and (len(op) != 4 or not _uval_ok(op[1]) or
-                                                         not all(isinstance(t, str) for t in op[3]))):
+            if op[0] not in (0, 1, 2, 3, 4, 5) or (op[0] % 3 == 1 and (len(op) != 4 or not _uval_ok(op[1]) or
+                                                                    not all(isinstance(t, str) for t in op[3]))):
                 return False
-            if op[0] != 1 and len(op) != 1:
+            if op[0] % 3 != 1 and len(op) != 1:
                 return False
+            if op[0] >= 3 and not sec:
+                return False
+        if sec:
+            c2 = sec['cfg']
+            if set(c2) != set(cfg) or c2['hashalg'] not in ALGS or c2['cookie_name'] not in ('auth_tkt', 'tk') \
+                    or not isinstance(c2['secret'], str) or c2['path'] != cfg['path'] or c2['domain'] != cfg['domain'] \
+                    or c2['samesite'] != cfg['samesite']:
+                return False
+            for k in ('timeout', 'reissue_time', 'max_age'):
+                if c2[k] is not None and not (isinstance(c2[k], int) and -10 <= c2[k] < 2 ** 40):
+                    return False
+            if sec['cookie'] is not None and not isinstance(sec['cookie'], str):
+                return False
+        if rq.get('tick', False) not in (True, False) or (rq.get('tick') and case.get('seam')):
+            return False
         o = case.get('origin')
         if o is not None:
             if o['hashalg'] not in ALGS or not _uval_ok(o['u']) or not isinstance(o['t0'], int) or not 0 <= o['t0'] < 2 ** 40:
